@@ -35,10 +35,10 @@ HALF = tc.Q // 2
 def model_configs(quick):
     g5 = [0, HALF, 2 * HALF, 3 * HALF, 4 * HALF]
     if quick:
-        return [("2ev", (2, g5, 8, [4], 4096, [HALF, 2 * HALF, 4 * HALF])),
-                ("3ev", (3, [0, HALF, 2 * HALF, 3 * HALF], 4, [8], 2048, [HALF, 2 * HALF, 4 * HALF]))]
-    return [("3ev", (3, g5, 8, [4, 16], 4096, [HALF, 2 * HALF, 4 * HALF])),
-            ("4ev-coarse", (4, [0, tc.Q, 2 * tc.Q, 3 * tc.Q], 4, [8], 2048, [HALF, tc.Q, 2 * tc.Q]))]
+        return [("2ev", (2, g5, 8, [4], tc.U // 2, [HALF, 2 * HALF, 4 * HALF])),
+                ("3ev", (3, [0, HALF, 2 * HALF, 3 * HALF], 4, [8], tc.U // 4, [HALF, 2 * HALF, 4 * HALF]))]
+    return [("3ev", (3, g5, 8, [4, 16], tc.U // 2, [HALF, 2 * HALF, 4 * HALF])),
+            ("4ev-coarse", (4, [0, tc.Q, 2 * tc.Q, 3 * tc.Q], 4, [8], tc.U // 4, [HALF, tc.Q, 2 * tc.Q]))]
 
 
 def run_model(ctx, pid, invs, kinds, quick, notes_for=None):
@@ -106,8 +106,32 @@ def run_c2s(ctx, pid, kinds, n_general, n_smooth, notes_for=None):
     for name, td in tc.corpus_tds():
         tds[i] = td
         i += 1
-    for k, td in tds.items():
-        jobs.append((k, td.to_json(), kinds, ctx.seed, notes_for(rng, td) if notes_for else None))
+    # siblings: the same (beat, value) pairs playing a different role (stop <-> delay, stop <-> warp), placed right after the
+    # original so that one worker process handles them back to back (state must not leak from one call to the next)
+    ordered = {}
+    j = 0
+    for k in sorted(tds):
+        ordered[j] = tds[k]
+        j += 1
+        td = tds[k]
+        if (td.stops or td.delays) and rng.random() < 0.35:
+            how = rng.random()
+            if how < 0.5:
+                sib = tc.TD(td.bpms, td.delays, td.stops, td.warps, td.offset)
+            elif how < 0.8:
+                sib = tc.TD(td.bpms, [], td.delays, sorted(set(td.warps) | {(q, v) for q, v in td.stops if not any(q == w for w, _ in td.warps)}), td.offset)
+            else:
+                sib = tc.TD(td.bpms, td.stops[:-1], td.delays, td.warps, td.offset)
+            ordered[j] = sib
+            j += 1
+    tds = ordered
+    for k in list(tds):
+        td = tds[k]
+        text = notes_for(rng, td) if notes_for else None
+        if text is not None:
+            from . import c13
+            tds[k] = td = c13.td_for_notes(rng, td, text)
+        jobs.append((k, td.to_json(), kinds, ctx.seed, text))
     recs = core.pmap(c2s_job, jobs, chunk=20)
     verdict = tc.validate(ctx, [tc.strip_private(r) for r in recs if r["st"] == "ok"])
     tc.judge(ctx, pid, recs, tds, verdict, "c2s")
@@ -129,7 +153,7 @@ def run(ctx):
                 "neighbouring ticks, half/quarter ticks, negative beats) x tags; C2S: random + corpus timing data; "
                 "non-trivial = timing data with a stop, delay or warp; distinct = distinct timing data")
     ctx.assumptions += [
-        "beats are positions on a 1/768-beat grid (ticks are 16 of them); events are tick-aligned; warp lengths are read rounded to the nearest tick",
+        "beats are positions on a 1/26880-beat grid (a tick is 560 of them); events are tick-aligned; warp lengths are read rounded to the nearest tick",
         "for arbitrary decimal BPMs TLC returns the exact linear form of each answer and the harness evaluates it with fractions.Fraction (1e-9 s tolerance); on the smooth sub-domain (BPM 40/80/160/320/640, dyadic pauses and offsets) TLC compares exact integers itself",
         "negative BPMs / stops and unsorted lists are outside the domain (TLC checks the domain predicate)",
     ]
